@@ -517,6 +517,9 @@ class AccessMixin:
             if hk in cell.conc:
                 return cell.conc[hk]
             if raising:
+                if ctx.spec:
+                    raise Unsupported(f"a specification subscripts a table with the key {hk!r} that is not there: KeyError "
+                                      "(fault of the clause, not a dead path)")
                 ctx.may_raise(True, "KeyError", f"dict-key {hk!r}")
                 raise Infeasible()
             return default
